@@ -206,9 +206,9 @@ func runRotate(c *ctx) error {
 		}
 		ops := []func() error{
 			func() error { r.report(1, 650, 40); return nil },
-			func() error { r.report(1, 650, 41); return nil }, // equivocation
+			func() error { r.report(1, 650, 41); return nil },  // equivocation
 			func() error { r.report(2, 651, 500); return nil }, // over capacity
-			func() error { r.report(2, 652, 1<<63 + 5); return nil },
+			func() error { r.report(2, 652, 1<<63+5); return nil },
 			func() error { r.report(3, 653, 42); return nil },
 			func() error { r.report(3, 653, 42); return nil }, // replay
 			func() error { ban(3); return nil },
@@ -217,7 +217,11 @@ func runRotate(c *ctx) error {
 			func() error { r.report(1, 2400, 44); r.report(1, 2016, 45); r.report(1, 2015, 46); return nil },
 			func() error { return r.tick(3201) },
 			func() error { r.report(1, 3300, 47); return nil },
-			func() error { s.Authorize(s.BuildAuth(hx.AuthSpec{ID: 4, Key: "d4", Cap: 100, Signer: "gca"})); r.devs = append(r.devs, 4); return nil },
+			func() error {
+				s.Authorize(s.BuildAuth(hx.AuthSpec{ID: 4, Key: "d4", Cap: 100, Signer: "gca"}))
+				r.devs = append(r.devs, 4)
+				return nil
+			},
 			func() error { r.report(4, 3301, 48); return nil },
 			func() error { return r.restart(3201 + 2016 + 2016 + 900) }, // two catch-up rotations
 			func() error { r.report(4, r.Now()-3, 49); return nil },
